@@ -40,6 +40,7 @@ pub fn families() -> Vec<&'static dyn Family> {
         &nsim::multitopic::MULTI_TOPIC,
         &nsim::peerloss::PEER_LOSS,
         &nsim::rrslow::RR_SLOW,
+        &nsim::rereg::REREG,
     ]
 }
 
@@ -231,7 +232,7 @@ pub fn plan(property: &str) -> Option<CheckPlan> {
             ],
             real: N_REAL.to_vec(),
             stubbed: N_STUB.to_vec(),
-            items: vec![PlanItem { family: &nsim::reconnect::RECONNECT, quick: 504, thorough: 33_600 }],
+            items: vec![PlanItem { family: &nsim::reconnect::RECONNECT, quick: 504, thorough: 33_600 }, PlanItem { family: &nsim::rereg::REREG, quick: 200, thorough: 8_000 }],
         }),
         "C13" => Some(CheckPlan {
             property: "C13",
